@@ -106,6 +106,65 @@ def formula_semantics(src, depth=2, meta=False):
     src.obs('major', bool(app.major_failure))
 
 
+@rigged
+def formula_over_a_changing_process_set(src, k=3):
+    """H15d: the formula is evaluated, then processes of the application are added and removed (a second instance
+    defines more of them, numprocs changes) and it is evaluated again: a pattern always ranges over the processes the
+    application has *now*"""
+    import re
+    from rig.core import process_info
+    from rig.stubs import CLOCK
+    from supervisor.states import ProcessStates as PS
+    core = Core(2, 0)
+    ids = core.ids
+    from supvisors.ttypes import SupvisorsInstanceStates as S
+    for i in ids:
+        core.identify(i)
+        core.set_instance_state(i, S.RUNNING)
+    pool = ['w_0', 'w_1', 'w_2']
+    formula_tree = src.pick('formula', [('all', ('pattern', 'w_.*')), ('any', ('pattern', 'w_.*')),
+                                        ('or', ('name', 'w_0'), ('any', ('pattern', 'w_[12]')))])
+    core.add_process(ids[0], 'app', 'w_0', PS.STOPPED)
+    app = core.context.applications['app']
+    adapter.set_rules(app.rules, managed=True)
+    app.rules.status_formula = A.unparse(formula_tree)
+    states = {'w_0': A.STOPPED}
+    present = {'w_0'}
+
+    def check(tag):
+        app.update_sequences()
+        app.update()
+        values = {n: A.operational(states[n], True) for n in present}
+        matches = {p: [n for n in sorted(present) if re.fullmatch(p, n)] for p in ('w_.*', 'w_[12]')}
+        try:
+            r = A.eval_formula(formula_tree, values, matches)
+            expected = True if isinstance(r, list) else (not r)
+        except (A.Unresolved, KeyError):
+            expected = True
+        src.check('major-is-negated-formula-over-the-current-processes', bool(app.major_failure) == expected,
+                  sig=f'{formula_tree[0]}:{tag}', present=sorted(present), states=states, formula=app.rules.status_formula)
+    check('start')
+    for step in range(k):
+        name = src.pick(f'who{step}', pool)
+        kind = src.pick(f'kind{step}', ['added-stopped', 'running', 'fatal', 'removed'])
+        if kind == 'added-stopped' and name not in present:
+            core.fsm.on_process_added_event(core.context.instances[ids[0]],
+                                            process_info('app', name, PS.STOPPED, now=CLOCK[0].t))
+            present.add(name)
+            states[name] = A.STOPPED
+        elif kind == 'removed' and name in present and name != 'w_0':
+            core.fsm.on_process_removed_event(core.context.instances[ids[0]], {'group': 'app', 'name': name})
+            present.discard(name)
+            states.pop(name)
+        elif kind in ('running', 'fatal') and name in present:
+            st = PS.RUNNING if kind == 'running' else PS.FATAL
+            core.process_event(ids[0], 'app', name, st, expected=kind == 'running')
+            states[name] = A.RUNNING if kind == 'running' else A.FATAL
+        check(kind)
+    src.check('no-internal-error', not core.logger.tracebacks(), log=core.logger.tracebacks()[:1])
+    src.reach('evaluated')
+
+
 LEAVES = ["'p1'", "'zz'", "'p.'", "'('", "1", "None", "x", "__import__"]
 SMALL = ["'p1'", "'p.'", "1", "x"]
 TEMPLATES = ["{a}", "not {a}", "-{a}", "{a} and {b}", "{a} or {b}", "all({a})", "any({a})", "all()", "any({a}, {b})",
@@ -238,6 +297,8 @@ HARNESSES = [
     Harness('H15b-meta', formula_semantics, quick={'depth': 1, 'meta': True}, thorough={'depth': 2, 'meta': True},
             reach=('resolved', 'unresolved'), timeout=(100, 900),
             doc='same with process names holding regular expression metacharacters (an exact name is that process)'),
+    Harness('H15d', formula_over_a_changing_process_set, quick={'k': 3}, thorough={'k': 4}, reach=('evaluated',),
+            timeout=(60, 300), doc='patterns range over the processes the application has now (additions / removals)'),
     Harness('H15c', formula_safety, quick={'depth': 1}, thorough={'depth': 2}, reach=('accepted', 'refused'),
             timeout=(120, 1200), doc='hostile / ill-formed formulas: major failure, no error, no side effect'),
 ]
